@@ -12,6 +12,11 @@ CHECKS = {
    "Trusted: the harness' transcription of CRAM section 2.3; LTF-8 coverage is stratified sampling, not enumeration.",
    "property-based testing: exhaustive/stratified enumeration + rapid, oracle = independent spec encoder/decoder and round trip",
    "DESIGN.md 3/C20"),
+ "C17": ("exploration",
+   "Generated-input search: every begin-sorted chunk list up to length 4 (thorough 5) over a small virtual-offset alphabet is enumerated exhaustively for all strategies and thresholds, plus rapid lists of up to 30 chunks; oracle = interval-union coverage (superset; equality for Adjacent), separation/threshold predicates, Squash's enclosing chunk, sortedness and idempotence.",
+   "Inputs obey the documented precondition (sorted by Begin, Begin<=End). Exhaustive only inside the small alphabet; beyond it sampled.",
+   "property-based testing: bounded exhaustive enumeration + rapid, oracle = coverage/validity predicates and idempotence",
+   "DESIGN.md 3/C17"),
 }
 
 NOT_YET = {}
